@@ -24,7 +24,13 @@ type adjudicator struct {
 	subs  [nChans]*subscription
 	calls int
 	fail  map[int]bool // Register call numbers (0-based) that fail by script
+
+	subCalls  int          // Subscribe calls so far
+	failSub   map[int]bool // Subscribe call numbers (0-based) that fail by script
+	subFailed [nChans]bool // the last Subscribe for the channel failed by script
 }
+
+var errScriptedSub = errors.New("scripted adjudicator: Subscribe fails (fault plan)")
 
 var errScripted = errors.New("scripted adjudicator: Register fails (fault plan)")
 
@@ -45,6 +51,15 @@ func (a *adjudicator) Subscribe(_ context.Context, id channel.ID) (channel.Adjud
 	k := a.h.indexOf(id)
 	if k < 0 {
 		return nil, fmt.Errorf("scripted adjudicator: unknown channel %x", id[:4])
+	}
+	a.mu.Lock()
+	n := a.subCalls
+	a.subCalls++
+	failNow := a.failSub[n]
+	a.subFailed[k] = failNow
+	a.mu.Unlock()
+	if failNow {
+		return nil, errScriptedSub
 	}
 	sub := &subscription{a: a, k: k, ep: a.h.curEpoch(k), events: make(chan channel.AdjudicatorEvent, 4096), closed: make(chan struct{})}
 	a.mu.Lock()
